@@ -281,6 +281,25 @@ def run_corpus(chk, impl, model, name, engines, defs=()):
     return len(cases)
 
 
+def run_known(chk, impl, model, name, engines):
+    """corpus/<name>-known/*.json: reproducers of genuine defects that are recorded, not repaired
+    (KNOWN_FINDINGS.txt, signature known:<file>).  A reproducer that still diverges is reported through
+    chk.finding (KNOWN-FINDING when listed, VIOLATION otherwise); one that agrees again is noted."""
+    cases = corpus_cases(name + '-known')
+    if not cases:
+        return
+    mo = run_model(model, [c[1] for c in cases])
+    eng = run_impl(impl, [c[2].replace(c[2].split(' ', 1)[0], engines, 1) for c in cases])
+    for (fn, ml, hl), m, e in zip(cases, mo, eng):
+        chk.count(('known', fn), nontrivial=True, n=len(e))
+        cat = classify(m, e) if m.startswith('OK') else ''
+        if cat and is_violation_cat(cat):
+            chk.finding('known:' + fn[:-5], dict(model_line=ml, harness_line=hl, model=m, engines=e),
+                        'recorded defect %s reproduces (%s)' % (fn[:-5], cat))
+        else:
+            chk.notes.append('known finding %s did not reproduce' % fn)
+
+
 def gen_programs(chk, salt, n, opts=None):
     rng = chk.rng(salt)
     progs = []
@@ -302,6 +321,7 @@ def run(chk):
         'NOT proved: CFG/SSA/GVN structure, copy-prop, DSE, DCE, LICM, RA, combine, x86 encoder (differential run only)']
     n = 400 if quick else 6000
     run_corpus(chk, impl, model, 'c01', ENGINES)
+    run_known(chk, impl, model, 'c01', ENGINES)
     progs = gen_programs(chk, 'c01', n)
     nwd, ndiv = differential(chk, impl, model, progs, ENGINES, 'gen')
     chk.cov['rule'] = ('seeded well-defined MIR programs (tools/gen_c01_prog.py) run by the extracted Coq reference '
